@@ -92,7 +92,7 @@ def report(rep, findings, tags):
             o[k] = o.get(k, 0) + v
 
 
-def self_test(rep, scenarios, fn, mutate, what, tries=40):
+def self_test(rep, scenarios, fn, mutate, what, tries=400):
     """Binding self-test (DESIGN 4.5): a scenario whose PREDICTION is perturbed must be reported as a mismatch by
     the same evaluation that accepts the unperturbed one; otherwise the comparison is vacuous (machinery failure)."""
     import copy
@@ -110,9 +110,12 @@ def self_test(rep, scenarios, fn, mutate, what, tries=40):
         rejected = bool(out["found"])
         rep.self_tests.append(dict(test=f"perturbed prediction ({what}) of scenario {i} must be reported", reported=rejected))
         if not rejected:
-            raise common.MachineryError(f"binding self-test failed: perturbing {what} of scenario {i} was not noticed")
+            # decided in common.finish: a machinery failure (exit 2) unless the run reports violations of the
+            # code anyway (on a tree that breaks the property the binding cannot be demonstrated on conforming runs)
+            rep.selftest_failures.append(f"binding self-test failed: perturbing {what} of scenario {i} was not noticed")
+            return
         done += 1
         if done >= 2:
             return
     if done == 0:
-        raise common.MachineryError(f"binding self-test could not be run ({what}): no conforming scenario with that field among the first {tries}")
+        rep.selftest_failures.append(f"binding self-test could not be run ({what}): no conforming scenario with that field among the first {tries}")
